@@ -1,0 +1,22 @@
+//go:build verif
+
+package index
+
+import (
+	"fmt"
+
+	"github.com/sourcegraph/zoekt"
+	"github.com/sourcegraph/zoekt/query"
+)
+
+// VerifNewMatchTree calls indexData.newMatchTree on q as given (no simplification first), so that a harness can
+// observe which query node kinds the match-tree constructor accepts. s must come from NewSearcher.
+// Verification hook; not part of the normal build.
+func VerifNewMatchTree(s zoekt.Searcher, q query.Q) error {
+	d, ok := s.(*indexData)
+	if !ok {
+		return fmt.Errorf("VerifNewMatchTree: not an *indexData: %T", s)
+	}
+	_, err := d.newMatchTree(q, matchTreeOpt{})
+	return err
+}
